@@ -42,6 +42,7 @@ class Spelling:
         self.r = r
         self.dims = set()
         self.force_names = False
+        self.bias = {}  # dim -> probability (percent) overriding the default of a coin
 
     def rcase(self, s):
         r = self.r
@@ -68,7 +69,7 @@ class Spelling:
     def coin(self, dim, p=50):
         if self.r is None:
             return False
-        if self.r.pct() < p:
+        if self.r.pct() < self.bias.get(dim, p):
             self.dims.add(dim)
             return True
         return False
